@@ -1061,7 +1061,7 @@ def run_blueprints(ctx):
             ctx.case(("bp", tag, text), nontrivial=True,
                      sample={"tag": tag, "assemblies": len(r.core), "blocks": sum(len(a) for a in r.core)} if t < 3 else None)
         # ---- inconsistent documents must be refused
-        for t in range(ctx.pick(16, 160)):
+        for t in range(ctx.pick(2 * len(KINDS_BAD), 10 * len(KINDS_BAD))):
             kind = KINDS_BAD[t % len(KINDS_BAD)]
             doc = gen_doc(rng, "hex", "map") if kind == "conflicting-mult" else gen_doc(rng, geom=rng.choice(["hex", "hex_corners_up"]))
             mutate = None
